@@ -113,6 +113,9 @@ impl Binder {
         }
 
         for col in &columns {
+            if !crate::types::DataType::is_supported(&col.data_type) {
+                return Err(ErrorKind::Todo(format!("type {}", col.data_type)).with_spanned(col));
+            }
             for opt in &col.options {
                 if !matches!(
                     opt.option,
